@@ -155,6 +155,8 @@ def apply_fn(spec, args):
         return best
     if kind == "Const":
         return spec[1]
+    if kind == "NoneIfMod":
+        return None if len(args) == 1 and key_of(args[0]) % spec[1] == spec[2] else (key_of(args[0]) if len(args) == 1 else None)
     raise ValueError(spec)
 
 
@@ -168,6 +170,8 @@ def coq_fn(spec):
         return "(FNth %d)" % spec[1]
     if kind == "Const":
         return "(FConst %s)" % coq_val(spec[1])
+    if kind == "NoneIfMod":
+        return "(FNoneIfMod %s %s)" % (coq_z(spec[1]), coq_z(spec[2]))
     return {"Ident": "FIdent", "NegKey": "FNegKey", "Sum": "FSum", "Tuple": "FTuple", "MaxKey": "FMaxKey"}[kind]
 
 
@@ -266,6 +270,8 @@ class Src:
         self.ctx.ev("item", self.idx, x)
         return x
 
+    close_result = None      # what aclose() returns: must be irrelevant to the library
+
     async def aclose(self):
         self.ctx.ev("close", self.idx)
         self.closing += 1
@@ -273,6 +279,7 @@ class Src:
             await self.ctx.suspend(("close", self.idx))
         self.ctx.use()
         self.closed += 1
+        return self.close_result
 
     def state(self):
         return (self.exh, self.closing, self.closed)
@@ -332,7 +339,7 @@ def mkfn(ctx, idx, spec, asynchronous=True, suspend=False, flavour=None):
         return None
     if callable(flavour):
         flavour = flavour()
-    if flavour in ("def", "partial", "object") and asynchronous:
+    if flavour in ("def", "partial", "object", "awaitobj") and asynchronous:
         async def af(*args):
             ctx.ev("call", idx, args)
             ctx.use()
@@ -349,6 +356,18 @@ def mkfn(ctx, idx, spec, asynchronous=True, suspend=False, flavour=None):
             async def af2(_dummy, *args):
                 return await af(*args)
             return _ft.partial(af2, None)
+
+        if flavour == "awaitobj":
+            class _AwObj:        # an awaitable that is not a coroutine object (like a Future)
+                def __init__(self, c):
+                    self.c = c
+
+                def __await__(self):
+                    return self.c.__await__()
+
+            def fo(*args):
+                return _AwObj(af(*args))
+            return fo
 
         class _CallObj:
             def __call__(self, *args):
